@@ -366,6 +366,20 @@ func (g gen) configuration(tmpDir string) map[string]any {
 		cfg["secrets_reload_enabled"] = g.maybe("secrets.v")
 	}
 
+	switch rapid.IntRange(0, 5).Draw(g.t, "cache") {
+	case 0:
+		cfg["cache"] = map[string]any{"type": "noop"}
+	case 1:
+		cfg["cache"] = map[string]any{"type": "in-memory"}
+	case 2, 3:
+		cc := map[string]any{"address": g.pick("cache.address", "redis:6379", "cache.example.com:6380")}
+		if g.maybe("cache.db") {
+			cc["db"] = g.pick("cache.dbv", 1, 3)
+		}
+
+		cfg["cache"] = map[string]any{"type": "redis", "config": cc}
+	}
+
 	serve := map[string]any{}
 
 	for _, name := range []string{"decision", "proxy", "management"} {
@@ -641,6 +655,22 @@ func describeLeaves(ls []leaf) string {
 }
 
 func TestFileAndEnvironmentAreEquivalent(t *testing.T) {
+	// what neither a file nor the environment defines: loaded before anything else happened in this process
+	scratch, err := os.MkdirTemp("", "c20p-")
+	if err != nil {
+		t.Fatalf("harness: %v", err)
+	}
+
+	pristine := load(scratch, []leaf{}, nil, nil)
+	_ = os.RemoveAll(scratch)
+
+	if pristine.Err != nil {
+		t.Fatalf("harness: a configuration defining nothing is refused: %v", pristine.Err)
+	}
+
+	// (written down now: what is compared later must not share anything with objects later loads could change)
+	pristineDump := dump(pristine.Conf)
+
 	rapid.Check(t, func(t *rapid.T) {
 		dir, err := os.MkdirTemp("", "c20-")
 		if err != nil {
@@ -736,8 +766,10 @@ func TestFileAndEnvironmentAreEquivalent(t *testing.T) {
 			case wholeElementInEnv:
 				inEnv = append(inEnv, l)
 				listLeafInEnv = true
-			case isScalarListElement(l):
-				inFile = append(inFile, l) // before the cut: stays in the file (the file must not contain gaps)
+			case isScalarListElement(l), l.Path[0] == "cache":
+				// before the cut: stays in the file (the file must not contain gaps); the cache section is one of several shapes for
+				// the schema and stays in one piece
+				inFile = append(inFile, l)
 			case rapid.Bool().Draw(t, fmt.Sprintf("inEnv.%d", i)):
 				inEnv = append(inEnv, leaf{Path: l.Path, Value: l.Value, Optional: true})
 
@@ -817,6 +849,17 @@ func TestFileAndEnvironmentAreEquivalent(t *testing.T) {
 			if ok, d := same(reference.Conf, withConflicts.Conf); !ok {
 				t.Fatalf("environment does not win for exactly the conflicting leaves: %s\nconflicts:\n%s", d, describeLeaves(conflicts))
 			}
+		}
+
+		// defaults fill what neither defines - whatever was loaded before in this process
+		bare := load(dir, []leaf{}, nil, nil)
+		if bare.Err != nil {
+			t.Fatalf("a configuration defining nothing is refused after other configurations were loaded: %v", bare.Err)
+		}
+
+		if got := dump(bare.Conf); got != pristineDump {
+			t.Fatalf("a configuration defining nothing does not consist of the defaults any more after other configurations were loaded: %s\nloaded before:\n%s",
+				firstDiff(pristineDump, got), describeLeaves(all))
 		}
 
 		if listLeafInEnv || len(conflicts) != 0 {
